@@ -13,6 +13,7 @@ pub fn run(which: &str) {
         "c08_redeemers" => crate::c08::run(),
         "c09_data" => crate::c08::run_c09(),
         "c17_collide" => c17_collide(),
+        "c03_foreign" => c03_foreign(),
         _ => panic!("unknown scenario {which}"),
     }
 }
@@ -137,4 +138,16 @@ fn c17_collide() {
     let mut c = crate::c14::cm_compiler();
     let r = pollster::block_on(tx3_resolver::resolve_tx(AnyTir::V1Beta0(ws.tir("t").unwrap().clone()), &args, &mut c, &store, 10));
     match r { Ok(x) => { let t = pallas::ledger::traverse::MultiEraTx::decode(&x.payload).unwrap(); let b = &t.as_conway().unwrap().transaction_body; println!("resolved: inputs = {:?}", b.inputs.iter().map(|i| (i.transaction_id.to_string()[..4].to_string(), i.index)).collect::<Vec<_>>()); } Err(e) => println!("resolve error: {e}") }
+}
+
+fn c03_foreign() {
+    let a = addr(ADDR_A);
+    let mut b = a.clone(); let n = b.len(); b[n-1] ^= 0x55; b[n-2] ^= 0x33;   // another (syntactically valid) address
+    let src = "party S; tx t() { input source { from: S, ref: 0x0909090909090909090909090909090909090909090909090909090909090909#0, } output { to: S, amount: source - fees, } }";
+    let tx = lower(src, "t");
+    let store = Store(vec![utxo(9, 0, &b, 7_000_000), utxo(1, 0, &a, 5_000_000)]);
+    let args: BTreeMap<String, ArgValue> = BTreeMap::from([("s".to_string(), ArgValue::Address(a.clone()))]);
+    let mut c = crate::c14::cm_compiler();
+    let r = pollster::block_on(tx3_resolver::resolve_tx(AnyTir::V1Beta0(tx), &args, &mut c, &store, 10));
+    match r { Ok(x) => { let t = pallas::ledger::traverse::MultiEraTx::decode(&x.payload).unwrap(); let bd = &t.as_conway().unwrap().transaction_body; println!("Ok: body inputs = {:?} (the referenced UTxO 0909..#0 sits at another address than `from: S`)", bd.inputs.iter().map(|i| (i.transaction_id.to_string()[..4].to_string(), i.index)).collect::<Vec<_>>()); } Err(e) => println!("Err: {e}") }
 }
